@@ -76,7 +76,7 @@ ASSUMPTIONS = [
 FAMILIES = ["1d_int", "1d_float", "1d_adaptive", "1d_gapped", "2d_fixed", "2d_adaptive", "2d_gapped_axis", "3d_fixed",
             "1d_int32"]
 VALID = ["fill", "fill", "fill_w", "fill_n", "fill_n", "fill_n_w", "iadd_copy", "imul", "idiv", "merge", "set_dtype",
-         "normalize", "fill_far"]
+         "normalize", "fill_far", "isub_half", "iadd_float_copy", "isub_small_int"]
 
 
 def generate(rng, seed, part):
@@ -148,6 +148,20 @@ def apply_valid(h, kind, arg):
         return h.fill_n(data[:, 0] if nd == 1 else data, **kw)
     if kind == "iadd_copy":
         other = h.copy()
+        h += other
+        return None
+    if kind == "isub_half":
+        other = h.copy()
+        other *= 0.5
+        h -= other
+        return None
+    if kind == "isub_small_int":
+        other = h.copy(include_frequencies=False)
+        h -= other
+        return None
+    if kind == "iadd_float_copy":
+        other = h.copy()
+        other *= 0.25
         h += other
         return None
     if kind == "imul":
@@ -445,6 +459,12 @@ def execute(plan, ctx):
         before_missed = missed_tuple(node)
         shape0 = node.shape
         if op["op"] == "valid":
+            if op["kind"] == "merge" and any(
+                    not np.array_equal(np.asarray(x.bins), np.asarray(y.bins)) for x, y in zip(node.binnings, twin.binnings)):
+                # a refused call legitimately left extra empty bins on the node: merging pairs of bins would then
+                # pair other intervals than on the twin, which says nothing about physt
+                ctx.probe("merge_skipped_after_refused_growth")
+                continue
             ok, res = attempt(apply_valid, node, op["kind"], op["arg"])
             if ok and res is NotImplemented:
                 continue
